@@ -5,6 +5,7 @@
 //! point decided by a seeded scheduler (Random, PCT). The four real worker loops run as shuttle
 //! threads through the cfg-gated `verif_run_worker` hook.
 
+mod order;
 mod scenarios;
 
 use serde_json::{json, Value as J};
@@ -48,6 +49,7 @@ fn scenario_for(prop: &str) -> &'static str {
 		"C18" => "lock",
 		"C03" => "drop",
 		"C11" => "treelock",
+		"C12" => "order",
 		_ => "vis",
 	}
 }
@@ -94,6 +96,7 @@ fn classify(msg: &str) -> (&'static str, String) {
 		let prop: &'static str = match prop {
 			"C03" => "C03",
 			"C05" => "C05",
+			"C12" => "C12",
 			"C11" => "C11",
 			"C15" => "C15",
 			"C18" => "C18",
@@ -523,6 +526,7 @@ impl log::Log for ProbeLogger {
 		if std::env::var("SCHEDSIM_VERBOSE").is_ok() {
 			eprintln!("[pdb] {t}");
 		}
+		order::line(&t);
 		if t.starts_with("Deferred commit") {
 			probe("commit_deferred");
 		} else if t.starts_with("Waiting, queue size") {
@@ -550,6 +554,7 @@ fn main() {
 		}
 	}));
 	parity_db::verif::EXTERNAL_WORKERS.store(true, Ordering::SeqCst);
+	parity_db::verif::set_yield_hook(Some(order::hook));
 	let args: Vec<String> = std::env::args().collect();
 	let code = match args.get(1).map(|s| s.as_str()) {
 		Some("worker") => worker(&args),
